@@ -1,6 +1,7 @@
 package exec
 
 import (
+	"go/types"
 	"strconv"
 
 	"golang.org/x/tools/go/ssa"
@@ -117,4 +118,60 @@ func inJSONMarshal(x *Exec, s *State, a []Value, _ *ssa.Call) []Outcome {
 		}
 		x.popFrame(s, Tuple{f.NatRet, Iface{}})
 	}}}}}
+}
+
+// ---------- reflect-based helpers of the repository, modelled on the finite set of
+// dynamic types the harnesses pass (strings, the safe types, pointers to them, nil) ----------
+
+func hasMethod(t types.Type, name string) bool {
+	ms := types.NewMethodSet(t)
+	for i := 0; i < ms.Len(); i++ {
+		if ms.At(i).Obj().Name() == name {
+			return true
+		}
+	}
+	return false
+}
+
+// inIndirect is safehtmlutil.Indirect: dereference pointers down to the base value (or a nil pointer).
+func inIndirect(x *Exec, s *State, a []Value, _ *ssa.Call) []Outcome {
+	iv := a[0].(Iface)
+	for iv.T != nil {
+		pt, ok := iv.T.Underlying().(*types.Pointer)
+		if !ok {
+			break
+		}
+		p, isP := iv.V.(Ptr)
+		if !isP {
+			unsupported("Indirect: pointer-typed interface holding %T", iv.V)
+		}
+		if p.Obj == 0 {
+			break
+		}
+		iv = Iface{T: pt.Elem(), V: s.load(p)}
+	}
+	return one(iv)
+}
+
+// inIndirectToStringer is indirectToStringerOrError (both copies).
+func inIndirectToStringer(x *Exec, s *State, a []Value, _ *ssa.Call) []Outcome {
+	iv := a[0].(Iface)
+	for iv.T != nil {
+		if hasMethod(iv.T, "String") || hasMethod(iv.T, "Error") {
+			break
+		}
+		pt, ok := iv.T.Underlying().(*types.Pointer)
+		if !ok {
+			break
+		}
+		p, isP := iv.V.(Ptr)
+		if !isP {
+			unsupported("indirectToStringerOrError: pointer-typed interface holding %T", iv.V)
+		}
+		if p.Obj == 0 {
+			break
+		}
+		iv = Iface{T: pt.Elem(), V: s.load(p)}
+	}
+	return one(iv)
 }
